@@ -18,6 +18,14 @@ pub struct PropSpec {
     pub expected_probes: &'static [&'static str],
 }
 
+const ROUTER_REAL: &[&str] = &["rumqttd::Router (run_inner, events, consume, handle_device_payload, handle_new_connection, handle_disconnection, forward_device_data, append_to_commitlog)", "rumqttd router/{scheduler,logs,iobufs,waiters,graveyard,shared_subs}", "rumqttd segments::CommitLog", "rumqttd::local::{LinkBuilder,LinkTx,LinkRx} buffer and channel primitives", "flume channels, parking_lot mutexes"];
+const ROUTER_STUB: &[&str] = &["per-connection task remote()/RemoteLink::start replaced by a link actor performing the same buffer/channel operations", "MQTT codecs and sockets (not involved)", "clients: protocol-obeying models"];
+const ROUTER_ASSUME: &[&str] = &[
+            "single-threaded interleaving at buffer/channel granularity is equivalent to the threaded broker (DESIGN.md 1.1)",
+            "release semantics: debug assertions off, overflow checks off",
+            "the reference broker model (spec.rs) and its matcher are trusted",
+        ];
+
 const SPECS: &[PropSpec] = &[
     PropSpec {
         id: "C01",
@@ -27,13 +35,9 @@ const SPECS: &[PropSpec] = &[
         runs_thorough: 3000000,
         rule: "one run = seeded swarm configuration (1-5 clients, topic/filter pools, QoS mixes, router segment/outgoing limits, ack pacing) + seeded interleaving of client actions, link steps and real run_inner calls with link steps injected at yield points; distinct = trace hash; non-trivial = at least one forward was delivered and at least two connections were registered",
         state_measure: "per router step: hash over connections of (tracker status, scheduled?, #tracked, #parked, inflight bucket, outgoing-buffer bucket, incoming bucket) + groups + graveyard size + channel bucket",
-        real: &["rumqttd::Router (run_inner, events, consume, handle_device_payload, handle_new_connection, handle_disconnection, forward_device_data, append_to_commitlog)", "rumqttd router/{scheduler,logs,iobufs,waiters,graveyard,shared_subs}", "rumqttd segments::CommitLog", "rumqttd::local::{LinkBuilder,LinkTx,LinkRx} buffer and channel primitives", "flume channels, parking_lot mutexes"],
-        stubbed: &["per-connection task remote()/RemoteLink::start replaced by a link actor performing the same buffer/channel operations", "MQTT codecs and sockets (not involved)", "clients: protocol-obeying models"],
-        assumptions: &[
-            "single-threaded interleaving at buffer/channel granularity is equivalent to the threaded broker (DESIGN.md 1.1)",
-            "release semantics: debug assertions off, overflow checks off",
-            "the reference broker model (spec.rs) and its matcher are trusted",
-        ],
+        real: ROUTER_REAL,
+        stubbed: ROUTER_STUB,
+        assumptions: ROUTER_ASSUME,
         expected_probes: &["yield_point_step", "unschedule_seen", "same_batch_pub_sub", "burst", "mid_run_quiescence"],
     },
     PropSpec {
@@ -44,13 +48,9 @@ const SPECS: &[PropSpec] = &[
         runs_thorough: 3000000,
         rule: "as C01 plus PINGREQ, multi-filter SUBSCRIBE/UNSUBSCRIBE, UNSUBSCRIBE of unknown filters; every drained DeviceAck is compared with a per-connection ledger in request order",
         state_measure: "per router step: hash over connections of (tracker status, scheduled?, #tracked, #parked, inflight bucket, outgoing-buffer bucket, incoming bucket) + groups + graveyard size + channel bucket",
-        real: &["rumqttd::Router (run_inner, events, consume, handle_device_payload, handle_new_connection, handle_disconnection, forward_device_data, append_to_commitlog)", "rumqttd router/{scheduler,logs,iobufs,waiters,graveyard,shared_subs}", "rumqttd segments::CommitLog", "rumqttd::local::{LinkBuilder,LinkTx,LinkRx} buffer and channel primitives", "flume channels, parking_lot mutexes"],
-        stubbed: &["per-connection task remote()/RemoteLink::start replaced by a link actor performing the same buffer/channel operations", "MQTT codecs and sockets (not involved)", "clients: protocol-obeying models"],
-        assumptions: &[
-            "single-threaded interleaving at buffer/channel granularity is equivalent to the threaded broker (DESIGN.md 1.1)",
-            "release semantics: debug assertions off, overflow checks off",
-            "the reference broker model (spec.rs) and its matcher are trusted",
-        ],
+        real: ROUTER_REAL,
+        stubbed: ROUTER_STUB,
+        assumptions: ROUTER_ASSUME,
         expected_probes: &["yield_point_step", "batch_10_plus"],
     },
     PropSpec {
@@ -61,13 +61,9 @@ const SPECS: &[PropSpec] = &[
         runs_thorough: 2000000,
         rule: "backlogs and bursts (up to 199 per batch) towards 1-3 subscribers at QoS 0-2 with ack pacing eager/lazy/burst/withheld; window invariants on every forward, completeness at quiescence with no stimulus after the last ack",
         state_measure: "per router step: hash over connections of (tracker status, scheduled?, #tracked, #parked, inflight bucket, outgoing-buffer bucket, incoming bucket) + groups + graveyard size + channel bucket",
-        real: &["rumqttd::Router (run_inner, events, consume, handle_device_payload, handle_new_connection, handle_disconnection, forward_device_data, append_to_commitlog)", "rumqttd router/{scheduler,logs,iobufs,waiters,graveyard,shared_subs}", "rumqttd segments::CommitLog", "rumqttd::local::{LinkBuilder,LinkTx,LinkRx} buffer and channel primitives", "flume channels, parking_lot mutexes"],
-        stubbed: &["per-connection task remote()/RemoteLink::start replaced by a link actor performing the same buffer/channel operations", "MQTT codecs and sockets (not involved)", "clients: protocol-obeying models"],
-        assumptions: &[
-            "single-threaded interleaving at buffer/channel granularity is equivalent to the threaded broker (DESIGN.md 1.1)",
-            "release semantics: debug assertions off, overflow checks off",
-            "the reference broker model (spec.rs) and its matcher are trusted",
-        ],
+        real: ROUTER_REAL,
+        stubbed: ROUTER_STUB,
+        assumptions: ROUTER_ASSUME,
         expected_probes: &["window_full_100", "unschedule_seen", "big_burst"],
     },
     PropSpec {
@@ -78,14 +74,49 @@ const SPECS: &[PropSpec] = &[
         runs_thorough: 3000000,
         rule: "rogue and well-behaved clients, stale events, takeover, persistent sessions, shared groups; no router step may unwind or return an error, probe client must be served afterwards",
         state_measure: "per router step: hash over connections of (tracker status, scheduled?, #tracked, #parked, inflight bucket, outgoing-buffer bucket, incoming bucket) + groups + graveyard size + channel bucket",
-        real: &["rumqttd::Router (run_inner, events, consume, handle_device_payload, handle_new_connection, handle_disconnection, forward_device_data, append_to_commitlog)", "rumqttd router/{scheduler,logs,iobufs,waiters,graveyard,shared_subs}", "rumqttd segments::CommitLog", "rumqttd::local::{LinkBuilder,LinkTx,LinkRx} buffer and channel primitives", "flume channels, parking_lot mutexes"],
-        stubbed: &["per-connection task remote()/RemoteLink::start replaced by a link actor performing the same buffer/channel operations", "MQTT codecs and sockets (not involved)", "clients: protocol-obeying models"],
-        assumptions: &[
-            "single-threaded interleaving at buffer/channel granularity is equivalent to the threaded broker (DESIGN.md 1.1)",
-            "release semantics: debug assertions off, overflow checks off",
-            "the reference broker model (spec.rs) and its matcher are trusted",
-        ],
+        real: ROUTER_REAL,
+        stubbed: ROUTER_STUB,
+        assumptions: ROUTER_ASSUME,
         expected_probes: &["takeover", "stale_disconnect_on_reused_slot"],
+    },
+    PropSpec {
+        id: "C15",
+        engine: "routersim",
+        level: "exploration",
+        runs_quick: 150000,
+        runs_thorough: 3000000,
+        rule: "histories of retained / non-retained / empty-payload publishes (and retained wills) on 2-6 topics interleaved with new, repeated and shared subscriptions at QoS 0-2; every forward flagged retain=1 must be the replay owed to a new non-shared subscription with a value the topic's retained message held since that subscription was accepted; completeness of the replay at quiescence when it fits the window; non-trivial as C01",
+        state_measure: "per router step: hash over connections of (tracker status, scheduled?, #tracked, #parked, inflight bucket, outgoing-buffer bucket, incoming bucket) + groups + graveyard size + channel bucket",
+        real: ROUTER_REAL,
+        stubbed: ROUTER_STUB,
+        assumptions: ROUTER_ASSUME,
+        expected_probes: &["retained_replay", "retained_replay_attributed"],
+    },
+    PropSpec {
+        id: "C16",
+        engine: "routersim",
+        level: "exploration",
+        runs_quick: 100000,
+        runs_thorough: 2000000,
+        rule: "clients with wills (QoS 0-2, retained or not) ending by DISCONNECT packet or link failure at seeded points, PublishWill events as the per-connection task sends them; the will is an accepted message of the reference model iff no DISCONNECT was processed, so it must reach each matching subscription exactly once and never otherwise; non-trivial as C01",
+        state_measure: "per router step: hash over connections of (tracker status, scheduled?, #tracked, #parked, inflight bucket, outgoing-buffer bucket, incoming bucket) + groups + graveyard size + channel bucket",
+        real: ROUTER_REAL,
+        stubbed: ROUTER_STUB,
+        assumptions: ROUTER_ASSUME,
+        expected_probes: &["will_fired"],
+    },
+    PropSpec {
+        id: "C17",
+        engine: "routersim",
+        level: "exploration",
+        runs_quick: 150000,
+        runs_thorough: 3000000,
+        rule: "2-4 members with shared subscriptions (one group per filter), outsiders with plain subscriptions, publishes singly and in bursts, members leaving / disconnecting, three strategies; ledger per (group, message): at most one member, no repeat (except redelivery after an unacknowledged recipient left), per-member order, completeness at quiescence incl. forwards left in dead members' buffers; non-trivial as C01",
+        state_measure: "per router step: hash over connections of (tracker status, scheduled?, #tracked, #parked, inflight bucket, outgoing-buffer bucket, incoming bucket) + groups + graveyard size + channel bucket",
+        real: ROUTER_REAL,
+        stubbed: ROUTER_STUB,
+        assumptions: ROUTER_ASSUME,
+        expected_probes: &["shared_forward_attributed"],
     },
     PropSpec {
     id: "C13",
@@ -119,6 +150,9 @@ pub fn runner(id: &'static str, tier: Tier) -> Box<RunFn> {
         "C03" => Box::new(move |ch, rep| engines::routersim::run(engines::routersim::P::C03, tier, ch, rep)),
         "C06" => Box::new(move |ch, rep| engines::routersim::run(engines::routersim::P::C06, tier, ch, rep)),
         "C09" => Box::new(move |ch, rep| engines::routersim::run(engines::routersim::P::C09, tier, ch, rep)),
+        "C15" => Box::new(move |ch, rep| engines::routersim::run(engines::routersim::P::C15, tier, ch, rep)),
+        "C16" => Box::new(move |ch, rep| engines::routersim::run(engines::routersim::P::C16, tier, ch, rep)),
+        "C17" => Box::new(move |ch, rep| engines::routersim::run(engines::routersim::P::C17, tier, ch, rep)),
         _ => panic!("no engine for {id}"),
     }
 }
